@@ -51,10 +51,13 @@ fn configuration(epoch: Epoch) -> MithrilNetworkConfiguration {
 async fn replay_inform_epoch_settings() {
     let signers = fake_data::signers(6);
     let mut service = service_with_stores(&signers).await;
-    service.inform_epoch_settings(Epoch(12), configuration(Epoch(12)), signers[0..3].to_vec(), signers[2..6].to_vec()).await.unwrap();
+    // the network configuration was computed for epoch 11 (the signer's node lags): the epoch of the data is the one handed in
+    service.inform_epoch_settings(Epoch(12), configuration(Epoch(11)), signers[0..3].to_vec(), signers[2..6].to_vec()).await.unwrap();
     assert_eq!(service.protocol_initializer().unwrap().as_ref().map(|p| p.get_stake()), Some(1011),
                "inform_epoch_settings(12): key material in force is not the one saved under epoch 11 (stake tag 1011)");
-    assert_eq!(service.epoch_of_current_data().unwrap(), Epoch(12));
+    assert_eq!(service.epoch_of_current_data().unwrap(), Epoch(12), "the epoch of the epoch data is not the epoch handed to inform_epoch_settings");
+    assert!(service.current_signers_with_stake().await.unwrap().iter().all(|s| s.stake == 111), "after inform_epoch_settings(12) the current signers do not carry the stakes saved under epoch 11");
+    assert!(service.next_signers_with_stake().await.unwrap().iter().all(|s| s.stake == 112), "after inform_epoch_settings(12) the next signers do not carry the stakes saved under epoch 12");
     assert_eq!(service.current_signers().unwrap(), &signers[0..3].to_vec());
     assert_eq!(service.next_signers().unwrap(), &signers[2..6].to_vec());
     // epoch 0 has no signer-retrieval epoch
@@ -80,6 +83,24 @@ async fn replay_next_signers_with_stake() {
     let next = service.next_signers_with_stake().await.unwrap();
     assert_eq!(next.iter().map(|s| s.party_id.clone()).collect::<Vec<_>>(), signers[2..6].iter().map(|s| s.party_id.clone()).collect::<Vec<_>>());
     assert!(next.iter().all(|s| s.stake == 112), "at epoch 12 the next signers carry stakes {:?} instead of those saved under epoch 12 (112)", next.iter().map(|s| s.stake).collect::<Vec<_>>());
+}
+
+/// every listed signer gets ITS OWN stake from the distribution saved under the epoch; a signer without a recorded stake is an
+/// error (the signer refuses to build a signer set that differs from the aggregator's), never silently dropped
+#[tokio::test]
+async fn replay_associate_signers_with_stake() {
+    let signers = fake_data::signers(6);
+    let service = service_with_stores(&signers[0..5]).await;   // no stake recorded for signers[5]
+    let out = service.associate_signers_with_stake(Epoch(11), &signers[0..5]).await.unwrap();
+    assert_eq!(out.len(), 5);
+    for (s, o) in signers[0..5].iter().zip(out.iter()) {
+        assert_eq!(s.party_id, o.party_id);
+        assert!(s.verification_key_for_concatenation == o.verification_key_for_concatenation, "signer associated with another key");
+        assert_eq!(o.stake, 111);
+    }
+    let r = service.associate_signers_with_stake(Epoch(11), &signers[3..6]).await;
+    assert!(r.is_err(), "a signer without recorded stake was silently dropped: {} signers returned for 3 listed", r.map(|v| v.len()).unwrap_or(0));
+    assert!(service.associate_signers_with_stake(Epoch(20), &signers[0..2]).await.is_err(), "signers associated with stakes of an epoch without saved distribution");
 }
 
 /// the gate: true only with key material AND this party listed among the current signers with exactly that key
